@@ -110,32 +110,37 @@ fn retry<T>(mut f: impl FnMut() -> std::io::Result<T>) -> Option<T> {
 }
 
 thread_local! {
-    /// one listening socket per family and thread (port 0, address read back), reused by every
-    /// send-mode case: a case only costs the ephemeral port of its client connection
-    static FRONT_LISTENERS: RefCell<[Option<std::net::TcpListener>; 2]> = const { RefCell::new([None, None]) };
+    /// one listening socket per kind and thread (port 0, address read back), reused by every
+    /// send-mode case: a case only costs the ephemeral port of its client connection.
+    /// kinds: 0 = 127.0.0.1, 1 = [::1], 2 = [::] (dual stack, the client connects over IPv4)
+    static FRONT_LISTENERS: RefCell<[Option<std::net::TcpListener>; 3]> = const { RefCell::new([None, None, None]) };
 }
 
 /// the front socket as sozu holds it in send mode: the accepted side of a real
-/// TCP connection (peer = client, local = listener), plus the client end and both addresses
-fn tcp_front(v6: bool) -> Option<(MioTcpStream, std::net::TcpStream, SocketAddr, SocketAddr)> {
+/// TCP connection, plus the client end and the two addresses **as the kernel
+/// reports them on the accepted socket** (peer = client, local = listener; for an
+/// IPv4 client on the dual-stack listener both are v4-mapped IPv6)
+fn tcp_front(kind: usize) -> Option<(MioTcpStream, std::net::TcpStream, SocketAddr, SocketAddr)> {
     retry(|| {
         FRONT_LISTENERS.with(|ls| {
             let mut ls = ls.borrow_mut();
-            let slot = &mut ls[v6 as usize];
+            let slot = &mut ls[kind];
             if slot.is_none() {
-                *slot = Some(std::net::TcpListener::bind(if v6 { "[::1]:0" } else { "127.0.0.1:0" })?);
+                *slot = Some(std::net::TcpListener::bind(["127.0.0.1:0", "[::1]:0", "[::]:0"][kind])?);
             }
             let l = slot.as_ref().unwrap();
             let la = l.local_addr()?;
-            let c = std::net::TcpStream::connect_timeout(&la, Duration::from_secs(2))?;
+            let target: SocketAddr = if kind == 2 { SocketAddr::from(([127, 0, 0, 1], la.port())) } else { la };
+            let c = std::net::TcpStream::connect_timeout(&target, Duration::from_secs(2))?;
             let ca = c.local_addr()?;
             // accept *our* connection (nothing else connects to this private listener)
             let (a, peer) = l.accept()?;
-            if peer != ca {
+            if peer.port() != ca.port() {
                 return Err(std::io::Error::other("foreign connection on the private listener"));
             }
             a.set_nonblocking(true)?;
-            Ok((MioTcpStream::from_std(a), c, ca, la))
+            let (seen_peer, seen_local) = (a.peer_addr()?, a.local_addr()?);
+            Ok((MioTcpStream::from_std(a), c, seen_peer, seen_local))
         })
     })
 }
@@ -482,7 +487,7 @@ impl Area for PP {
         "proxyproto"
     }
     fn rule(&self) -> String {
-        "case kinds: codec (HeaderV2::new round trips over v4/v6/mixed pairs + every strict prefix; raw headers of every family incl. AF_UNIX, TLV tails; 7 mutation kinds; random bytes), expect (valid/mutated header ++ payload, 5 chunking styles incl. every 1-byte split, scripted SocketResults), relay (same streams, buffer 64..16384), send (real loopback sockets v4/v6). Non-trivial: a case that reaches a parse Ok/Error or an Upgrade/Close".into()
+        "case kinds: codec (HeaderV2::new round trips over v4/v6/mixed pairs + every strict prefix; raw headers of every family incl. AF_UNIX, TLV tails; 7 mutation kinds; random bytes), expect (valid/mutated header ++ payload, 5 chunking styles incl. every 1-byte split, scripted SocketResults), relay (same streams, buffer 64..16384), send (real loopback front sockets: 127.0.0.1, [::1], and an IPv4 client accepted on a dual-stack [::] listener). Non-trivial: a case that reaches a parse Ok/Error or an Upgrade/Close".into()
     }
     fn cases(&self, thorough: bool) -> u64 {
         if thorough {
@@ -522,7 +527,7 @@ impl Area for PP {
         big.extend_from_slice(&[0x21, 0x11, 0x01, 0x00]);
         big.extend_from_slice(&[0u8; 300]);
         c.push(vec!["new".into(), "xnew".into(), "xev".into(), format!("xread {} C", hex(&big[..28])), format!("xread {} C", hex(&big[28..52])), format!("xread {} C", hex(&big[52..232]))]);
-        c.push(vec!["new".into(), "send v4".into(), "send v6".into()]);
+        c.push(vec!["new".into(), "send v4".into(), "send v6".into(), "send v46".into()]);
         // AF_UNIX header: encoder emits it, parser rejects it
         c.push(vec!["new".into(), format!("enc P 49 u:{}:{}", hex(&[0u8; 108]), hex(&[1u8; 108])), format!("parse {}", hex(&{
             let mut h = SIG.to_vec();
@@ -644,7 +649,7 @@ impl Area for PP {
             _ => {
                 // send mode has no input besides the address family: one case in five of this arm
                 if rng.chance(1, 5) {
-                    ops.push(format!("send {}", if rng.chance(1, 2) { "v4" } else { "v6" }));
+                    ops.push(format!("send {}", rng.pick(&["v4", "v6", "v46"])));
                 } else {
                     let n = rng.below(40) as usize;
                     ops.push(format!("parse {}", hex(&rng.bytes(n))));
@@ -883,8 +888,12 @@ impl Area for PP {
                     _ => "bad-op".into(),
                 },
                 ["send", fam] => {
-                    let v6 = *fam == "v6";
-                    let (Some((front, _client, client_addr, listener_addr)), Some((back, mut backend_peer))) = (tcp_front(v6), retry(unix_pair)) else {
+                    let kind = match *fam {
+                        "v4" => 0,
+                        "v6" => 1,
+                        _ => 2,
+                    };
+                    let (Some((front, _client, client_addr, listener_addr)), Some((back, mut backend_peer))) = (tcp_front(kind), retry(unix_pair)) else {
                         inconclusive = true;
                         run.tags.push("inconclusive".into());
                         run.out.push("inconclusive".into());
